@@ -36,7 +36,7 @@ func checkC15(c *Ctx, r *Report) {
 			}
 		}
 	}
-	rr := c.fnMust("server", "*ModbusTCPAssembler.ReceiveRead")
+	rr := assemblerReceiveRead(c)
 	if step == nil {
 		r.instance("R15.1", 1)
 		r.fail("R15.1", fnID(rr), "no function of package server calls the stream classifier", c.pos(rr.Pos()), "", "no-classifier-caller")
@@ -294,6 +294,26 @@ func c15Loop(c *Ctx, r *Report, rr, step *ssa.Function) {
 		}
 		return cond, neg, true
 	}
+	// nothing is answered (and the connection is not given up) before the buffered requests have
+	// been looked at: no return of ReceiveRead precedes the first step call
+	early := ""
+	for _, b := range rr.Blocks {
+		if ret, ok := b.Instrs[len(b.Instrs)-1].(*ssa.Return); ok && !afterStep(b) {
+			early = c.pos(ret.Pos())
+		}
+	}
+	rep(early == "", "ReceiveRead returns only after the per-packet step has examined the buffer (no verdict on the raw buffer, which may hold several complete requests)", "return at "+early, "returns-before-step", c.pos(call.Pos()))
+	// the reassembly buffer must survive between reads: the methods that touch it have pointer
+	// receivers (a value receiver would work on a copy that is dropped on return)
+	ptrRecv := true
+	for _, f := range []*ssa.Function{rr, step} {
+		if f.Signature.Recv() != nil {
+			if _, isPtr := f.Signature.Recv().Type().(*types.Pointer); !isPtr {
+				ptrRecv = false
+			}
+		}
+	}
+	rep(ptrRecv, "ReceiveRead and the per-packet step have pointer receivers, so bytes buffered by one read are still there for the next", "", "value-receiver", c.pos(rr.Pos()))
 	// loop exits: only when the step reports nothing handled, or asks to close
 	okExit := true
 	for _, b := range rr.Blocks {
@@ -742,4 +762,17 @@ func allocatedUnder(f *Frame, o *Obj) bool {
 		}
 	}
 	return false
+}
+
+// assemblerReceiveRead resolves the assembler's ReceiveRead as written in the source: the
+// pointer-receiver method, or (if it was declared with a value receiver) that method rather
+// than the synthetic pointer wrapper, so that rules see the real body.
+func assemblerReceiveRead(c *Ctx) *ssa.Function {
+	fn := c.fnMust("server", "*ModbusTCPAssembler.ReceiveRead")
+	if fn.Synthetic != "" {
+		if v := c.fnOpt("server", "ModbusTCPAssembler.ReceiveRead"); v != nil {
+			return v
+		}
+	}
+	return fn
 }
